@@ -207,7 +207,19 @@ class DB:
         t0 = time.time()
         paths = extract(units)
         self.units = {n: Unit(n, p) for n, p in paths.items()}
+        for u in self.units.values():
+            u.db = self
         self.extract_s = time.time() - t0
+
+    def link(self, name, csig, exclude=None):
+        """definition of function `name` with parameter types `csig` in any loaded unit (cross-TU resolution)"""
+        if not hasattr(self, '_link'):
+            self._link = {}
+            for u in self.units.values():
+                for f in u.functions:
+                    key = (f['name'], ','.join(p['t'] for p in f['params']))
+                    self._link.setdefault(key, f)
+        return self._link.get((name, csig))
 
     def unit(self, name):
         if name not in self.units:
